@@ -39,7 +39,7 @@ TIERS = {
     "quick": {
         "flat": ["MC_ByteSeq_q.cfg"],
         "refine": ["MC_ChunkVec_q0.cfg"],
-        "gen": ["MC_ChunkVec_g1.cfg", "MC_ChunkVec_g2.cfg"],
+        "gen": ["MC_ChunkVec_g1.cfg", "MC_ChunkVec_g2.cfg", "MC_ChunkVec_g5.cfg"],
         "sim": [(60, 41)],  # (traces, seed offset) per single-worker TLC run
         "variant_stride": 25,
         "coverage": False,
@@ -48,7 +48,8 @@ TIERS = {
         "flat": ["MC_ByteSeq.cfg"],
         "refine": ["MC_ChunkVec_q0.cfg", "MC_ChunkVec_q1.cfg", "MC_ChunkVec_q2.cfg", "MC_ChunkVec_t1.cfg", "MC_ChunkVec_t2.cfg",
                    "MC_ChunkVec_t3.cfg", "MC_ChunkVec_t4.cfg", "MC_ChunkVec_t5.cfg"],
-        "gen": ["MC_ChunkVec_g1.cfg", "MC_ChunkVec_g2.cfg", "MC_ChunkVec_g3.cfg", "MC_ChunkVec_g4.cfg"],
+        "gen": ["MC_ChunkVec_g1.cfg", "MC_ChunkVec_g2.cfg", "MC_ChunkVec_g3.cfg", "MC_ChunkVec_g4.cfg",
+                "MC_ChunkVec_g5.cfg", "MC_ChunkVec_g6.cfg"],
         "sim": [(400, 100 + i) for i in range(8)],
         "variant_stride": 10,
         "coverage": True,
@@ -155,6 +156,9 @@ def _run(chk: Check, tier: str, T: dict, work):
         total_hist += len(hs)
         chk.count(f"histories[{cfg}]", len(hs))
         sample_for_controls += hs[:: T["variant_stride"]]
+        tainted = [h for h in hs if any(st["alias"] for st in h[:-1])]
+        chk.count("histories_continuing_after_alias_case", len(tainted))
+        sample_for_controls += tainted[:300]
     sim_hists = []
     for n, so in T["sim"]:
         r = get("sim", so)
@@ -181,8 +185,8 @@ def _run(chk: Check, tier: str, T: dict, work):
     chk.cov["alias_case_commands_replayed"] = sum(
         v for k, v in chk.cov["branches_replayed"].items() if k.endswith("+wholechunk")
     )
-    if not alias_steps:
-        raise MachineryError("no replayed history contains the alias case")
+    if not alias_steps or not chk.cov.get("histories_continuing_after_alias_case"):
+        raise MachineryError("no replayed history contains / continues after the alias case")
 
     # ---- 4. regression model (the code before 1a97aee): TLC must refute it; its counterexamples are
     #         replayed into the real code (must agree with the flat model) and into the re-broken variant
@@ -346,7 +350,7 @@ def _negative_controls(chk: Check, variants: dict, hists: list, procs: int):
     chk.cov["negative_controls"] = {}
     for n, (_cls, must) in variants.items():
         chk.cov["negative_controls"][n] = {"histories": len(hists), "rejected": rejected[n], "must_reject": must}
-        if must and rejected[n] == 0 and n != REGRESSION_VARIANT:  # (that one is judged on the TLC counterexamples)
+        if must and rejected[n] == 0:
             raise MachineryError(f"negative control: broken ByteVec variant {n} was accepted on {len(hists)} histories")
     vals = R.Valuations(chk.seed)
     # specification side: one corrupted expected byte must be noticed
